@@ -98,7 +98,8 @@ func (s *State) UpdateAccount(updatedAccount *acm.Account) error {
 		cvmCode = types.NewCVMCode(types.CVMCodeTypeEVMCode, updatedAccount.EVMCode)
 	}
 	s.store.Set(types.CodeStoreKey(updatedAccount.Address), s.cdc.MustMarshalBinaryBare(&cvmCode))
-	err := s.bk.SetBalances(s.ctx, address, sdk.Coins{sdk.NewInt64Coin(s.sk.BondDenom(s.ctx), int64(updatedAccount.Balance))})
+	// the VM only knows the bond denomination: write that balance back and leave every other denomination alone
+	err := s.bk.SetBalance(s.ctx, address, sdk.NewInt64Coin(s.sk.BondDenom(s.ctx), int64(updatedAccount.Balance)))
 	if err != nil {
 		return err
 	}
